@@ -1071,6 +1071,14 @@ fn sets_single(loc: &mut Local) {
         dup.extend(mem.iter().rev());
         dup.extend(mem.iter());
         orders.push(dup);
+        // long sequences in which members first appear late (after 7, 9 and 20 repeats of another)
+        if let (Some(&first), Some(&last)) = (mem.first(), mem.last()) {
+            for (rep, lead) in [(7usize, first), (9, last), (20, first)] {
+                let mut v = vec![lead; rep];
+                v.extend(mem.iter());
+                orders.push(v);
+            }
+        }
         for r in 1..mem.len() {
             let mut v = mem.clone();
             v.rotate_left(r);
